@@ -607,17 +607,51 @@ def drain_bounded(ctx: Ctx):
                              '' if ok_exit else 'the drain loop does not exit when the queue is empty')
                 tmo = kwarg(get, 'timeout', 1)
                 ok_t = False
+                g = ctx.cfg(fn)
+                header, body = loop_region(ctx, fn, lp)
+                gn = g.primary(get)
+
+                def const_assigns(name: str, value) -> list[int]:
+                    return [g.primary(n) for n in walk_local(lp) if isinstance(n, ast.Assign) and isinstance(n.targets[0], ast.Name)
+                            and n.targets[0].id == name and isinstance(n.value, ast.Constant) and n.value.value is value
+                            or (isinstance(n, ast.Assign) and isinstance(n.targets[0], ast.Name) and n.targets[0].id == name
+                                and isinstance(n.value, ast.Constant) and n.value.value == value and not isinstance(n.value.value, bool)
+                                and not isinstance(value, bool))]
+
+                def set_after_get(name: str, value) -> bool:
+                    """every normal path from a successful get back to the loop head assigns `name = value`"""
+                    zs = const_assigns(name, value)
+                    return bool(zs) and g.must_pass(gn, zs, [header], exc=False)
+
                 if isinstance(tmo, ast.Name):
-                    g = ctx.cfg(fn)
-                    header, body = loop_region(ctx, fn, lp)
-                    zero = [n for n in walk_local(lp) if isinstance(n, ast.Assign) and isinstance(n.targets[0], ast.Name)
-                            and n.targets[0].id == tmo.id and isinstance(n.value, ast.Constant) and n.value.value == 0]
-                    if zero:
-                        zn = g.primary(zero[0])
-                        # every normal path from the get back to the loop head passes the zero assignment
-                        ok_t = g.must_pass(g.primary(get), [zn], [header], exc=False)
+                    if set_after_get(tmo.id, 0):
+                        ok_t = True
+                    else:
+                        # flag form: `t = full if first else 0` recomputed in every iteration, `first = False` after a get
+                        defs = [n for n in walk_local(lp) if isinstance(n, ast.Assign) and isinstance(n.targets[0], ast.Name) and n.targets[0].id == tmo.id]
+                        if defs and all(isinstance(d.value, ast.IfExp) for d in defs):
+                            oks = []
+                            for d in defs:
+                                v = d.value
+                                flag, when = None, None
+                                t = v.test
+                                neg = False
+                                if isinstance(t, ast.UnaryOp) and isinstance(t.op, ast.Not):
+                                    t, neg = t.operand, True
+                                if isinstance(t, ast.Name):
+                                    zero_in_else = isinstance(v.orelse, ast.Constant) and v.orelse.value == 0 and not isinstance(v.orelse.value, bool)
+                                    zero_in_body = isinstance(v.body, ast.Constant) and v.body.value == 0 and not isinstance(v.body.value, bool)
+                                    if zero_in_else and not zero_in_body:
+                                        flag, when = t.id, (True if neg else False)     # zero when the test is false
+                                    elif zero_in_body and not zero_in_else:
+                                        flag, when = t.id, (False if neg else True)
+                                oks.append(flag is not None and set_after_get(flag, when)
+                                           and g.must_pass(header, [g.primary(d)], [gn], exc=False))
+                            ok_t = all(oks)
                 elif isinstance(tmo, ast.Constant) and tmo.value == 0:
                     ok_t = True
+                elif isinstance(tmo, ast.IfExp) and isinstance(tmo.test, ast.Name) and isinstance(tmo.orelse, ast.Constant) and tmo.orelse.value == 0:
+                    ok_t = set_after_get(tmo.test.id, False)
                 yield ctx.ob('C11.DRAIN-BOUNDED', ok_t, fn, get, 'no waiting after the first item',
                              '' if ok_t else 'after an item was received the next get() may block for the full timeout again')
     if not found:
